@@ -8,7 +8,7 @@
    grid has dimension 1, every other leg dimension 2.
 
    Main result [planar_tn_value]: the specification value of Tensor/Net.v (sum over all bond assignments of the
-   product of all entries; the number computed by the exact column sweep, Exact.sweep_exact) equals the sum over all
+   product of all entries; the number computed by the exact column sweep, Noop.sweep_exact) equals the sum over all
    assignments of ONE bit per stabilizer node of the product over the qubit nodes of their entries at the bits of
    the adjacent stabilizer nodes: the delta tensors collapse the bond sums. *)
 From Coq Require Import List Arith Lia Bool ZArith Ring Permutation.
@@ -22,9 +22,9 @@ Notation idx := (Z * Z)%type.
 Definition zz_eqb (a b : idx) : bool := (fst a =? fst b)%Z && (snd a =? snd b)%Z.
 Lemma zz_eqb_eq a b : zz_eqb a b = true <-> a = b.
 Proof. destruct a, b; unfold zz_eqb; cbn [fst snd]. split; [intros H; f_equal; lia|intros H; injection H; lia]. Qed.
-Definition P (k c : nat) : idx := (Z.of_nat k, Z.of_nat c).
-Lemma P_inj k c k' c' : P k c = P k' c' -> k = k' /\ c = c'.
-Proof. unfold P. intros E. injection E. lia. Qed.
+Definition npos (k c : nat) : idx := (Z.of_nat k, Z.of_nat c).
+Lemma npos_inj k c k' c' : npos k c = npos k' c' -> k = k' /\ c = c'.
+Proof. unfold npos. intros E. injection E. lia. Qed.
 
 Section PlanarNet.
 Variable K : cring.
@@ -190,16 +190,16 @@ Local Notation upd := (@upd idx zz_eqb).
 
 (* the bit carried by the west bond of node (k, c): the node's own bit if it is a stabilizer node, else the bit of
    the stabilizer node to its west; a dummy bond (first column) carries 0.  Similarly to the east. *)
-Definition gw (g : idx -> bool) (c k : nat) : bool := (0 <? c) && g (P k (if Nat.odd (k + c) then c else c - 1)).
-Definition ge (g : idx -> bool) (c k : nat) : bool := (S c <? C) && gw g (S c) k.
-Definition wsof (g : idx -> bool) (c : nat) : list nat := map (fun k => b2n (gw g c k)) (seq 0 R).
+Definition gbw (g : idx -> bool) (c k : nat) : bool := (0 <? c) && g (npos k (if Nat.odd (k + c) then c else c - 1)).
+Definition gbe (g : idx -> bool) (c k : nat) : bool := (S c <? C) && gbw g (S c) k.
+Definition wsof (g : idx -> bool) (c : nat) : list nat := map (fun k => b2n (gbw g c k)) (seq 0 R).
 (* the stabilizer node whose bit is on the east bond of node (k, c) *)
-Definition pe (c k : nat) : idx := P k (if Nat.odd (k + c) then c else S c).
+Definition pe (c k : nat) : idx := npos k (if Nat.odd (k + c) then c else S c).
 Lemma odd_succ_r k c : Nat.odd (k + S c) = negb (Nat.odd (k + c)).
 Proof. replace (k + S c) with (S (k + c)) by lia. rewrite Nat.odd_succ. unfold Nat.odd. now rewrite negb_involutive. Qed.
-Lemma gw_succ g c k : gw g (S c) k = g (pe c k).
+Lemma gw_succ g c k : gbw g (S c) k = g (pe c k).
 Proof.
-  unfold gw, pe. cbn [Nat.ltb Nat.leb andb]. rewrite odd_succ_r. destruct (Nat.odd (k + c)); cbn [negb]; [|reflexivity].
+  unfold gbw, pe. cbn [Nat.ltb Nat.leb andb]. rewrite odd_succ_r. destruct (Nat.odd (k + c)); cbn [negb]; [|reflexivity].
   replace (S c - 1) with c by lia. reflexivity.
 Qed.
 
@@ -222,9 +222,9 @@ Proof. destruct a, b; cbn; ring. Qed.
 
 (* summing the east bonds of a column against the consistency indicator of its stabilizer nodes *)
 Lemma elim_rows c (w0 : nat -> bool) : forall len k0 g (F : list bool -> K),
-  (forall k, k0 <= k -> free c k = false -> g (P k c) = w0 k) ->
+  (forall k, k0 <= k -> free c k = false -> g (npos k c) = w0 k) ->
   sumB len (fun t => ind (forallb (fun p => free c (fst p) || eqb (w0 (fst p)) (snd p)) (combine (seq k0 len) t)) *! F t)
-  = sumA (frees_from c k0 len) (fun g1 => F (map (gw g1 (S c)) (seq k0 len))) g.
+  = sumA (frees_from c k0 len) (fun g1 => F (map (gbw g1 (S c)) (seq k0 len))) g.
 Proof.
   induction len as [|len IH]; intros k0 g F Hw.
   - cbn. ring.
@@ -234,7 +234,7 @@ Proof.
       cbn [CosetSum.sumA].
       assert (Hstep : forall e, sumB len (fun t => ind (forallb (fun p => free c (fst p) || eqb (w0 (fst p)) (snd p))
                                    (combine (seq (S k0) len) t)) *! F (e :: t))
-                = sumA (frees_from c (S k0) len) (fun g1 => F (map (gw g1 (S c)) (seq k0 (S len)))) (upd (pe c k0) e g)).
+                = sumA (frees_from c (S k0) len) (fun g1 => F (map (gbw g1 (S c)) (seq k0 (S len)))) (upd (pe c k0) e g)).
       { intros e. rewrite (IH (S k0) (upd (pe c k0) e g) (fun t => F (e :: t))).
         - apply (sumA_ext_in K zz_eqb zz_eqb_eq). intros g1 Hg1. cbn [seq map]. do 2 f_equal. symmetry.
           rewrite gw_succ. rewrite Hg1.
@@ -284,17 +284,17 @@ Lemma map_ext_seq {A} (f g : nat -> A) k0 n : (forall k, k0 <= k < k0 + n -> f k
 Proof. intros H. apply map_ext_in. intros k Hk. apply in_seq in Hk. apply H. exact Hk. Qed.
 
 (* value of the qubit nodes of column c under the assignment g *)
-Definition colval (c : nat) (g : idx -> bool) : K := prodl (qrows c 0 R) (colfactor c (gw g c) (ge g c)).
+Definition colval (c : nat) (g : idx -> bool) : K := prodl (qrows c 0 R) (colfactor c (gbw g c) (gbe g c)).
 
-Lemma gw_first g k : gw g 0 k = false.
+Lemma gw_first g k : gbw g 0 k = false.
 Proof. reflexivity. Qed.
-Lemma gw_dummy g c : dW c = 1 -> forall k, gw g c k = false.
+Lemma gw_dummy g c : dW c = 1 -> forall k, gbw g c k = false.
 Proof. unfold dW. destruct (c =? 0) eqn:E; [|discriminate]. apply Nat.eqb_eq in E. subst. intros _ k. reflexivity. Qed.
-Lemma ge_dummy g c : dE c = 1 -> forall k, ge g c k = false.
-Proof. unfold dE, ge. destruct (S c =? C) eqn:E; [|discriminate]. apply Nat.eqb_eq in E. intros _ k.
+Lemma ge_dummy g c : dE c = 1 -> forall k, gbe g c k = false.
+Proof. unfold dE, gbe. destruct (S c =? C) eqn:E; [|discriminate]. apply Nat.eqb_eq in E. intros _ k.
   replace (S c <? C) with false by (symmetry; apply Nat.ltb_ge; lia). reflexivity. Qed.
-Lemma ge_inner g c k : S c < C -> ge g c k = gw g (S c) k.
-Proof. intros H. unfold ge. replace (S c <? C) with true by (symmetry; apply Nat.ltb_lt; lia). reflexivity. Qed.
+Lemma ge_inner g c k : S c < C -> gbe g c k = gbw g (S c) k.
+Proof. intros H. unfold gbe. replace (S c <? C) with true by (symmetry; apply Nat.ltb_lt; lia). reflexivity. Qed.
 Lemma dE_inner c : S c < C -> dE c = 2.
 Proof. intros H. unfold dE. replace (S c =? C) with false by (symmetry; apply Nat.eqb_neq; lia). reflexivity. Qed.
 Lemma dE_last c : S c = C -> dE c = 1.
@@ -314,44 +314,44 @@ Qed.
 (* absorbing column c (not the last): the sum over its east bonds *)
 Lemma column_step c g (G : list nat -> K) : S c < C ->
   sumt (repeat 2 R) (fun mid => opc (pcol c) 0 (wsof g c) mid *! G mid)
-  = sumA (frees c) (fun g1 => prodl (qrows c 0 R) (colfactor c (gw g c) (gw g1 (S c))) *! G (wsof g1 (S c))) g.
+  = sumA (frees c) (fun g1 => prodl (qrows c 0 R) (colfactor c (gbw g c) (gbw g1 (S c))) *! G (wsof g1 (S c))) g.
 Proof.
   intros Hc. rewrite sumt_sumB.
-  pose (F := fun t : list bool => prodl (qrows c 0 R) (colfactor c (gw g c) (fun k => nth k t false)) *! G (map b2n t)).
-  rewrite (sumB_ext K R _ (fun t => ind (forallb (fun p => free c (fst p) || eqb (gw g c (fst p)) (snd p)) (combine (seq 0 R) t)) *! F t)).
-  - unfold frees. rewrite (elim_rows c (gw g c) R 0 g F).
+  pose (F := fun t : list bool => prodl (qrows c 0 R) (colfactor c (gbw g c) (fun k => nth k t false)) *! G (map b2n t)).
+  rewrite (sumB_ext K R _ (fun t => ind (forallb (fun p => free c (fst p) || eqb (gbw g c (fst p)) (snd p)) (combine (seq 0 R) t)) *! F t)).
+  - unfold frees. rewrite (elim_rows c (gbw g c) R 0 g F).
     + apply (sumA_ext_in K zz_eqb zz_eqb_eq). intros g1 _. unfold F. f_equal.
       * apply prodl_ext_in. intros k Hk. unfold qrows in Hk. apply filter_In in Hk. destruct Hk as [Hk _]. apply in_seq in Hk.
         unfold colfactor, north, south, pb. rewrite dE_inner by exact Hc. cbn [Nat.eqb].
-        assert (Hn : forall j, j < R -> nth j (map (gw g1 (S c)) (seq 0 R)) false = gw g1 (S c) j).
-        { intros j Hj. rewrite (nth_indep _ false (gw g1 (S c) 0)) by (rewrite map_length, seq_length; exact Hj).
+        assert (Hn : forall j, j < R -> nth j (map (gbw g1 (S c)) (seq 0 R)) false = gbw g1 (S c) j).
+        { intros j Hj. rewrite (nth_indep _ false (gbw g1 (S c) 0)) by (rewrite map_length, seq_length; exact Hj).
           rewrite map_nth. rewrite seq_nth by exact Hj. reflexivity. }
         rewrite (Hn k) by lia.
         destruct (0 <? k) eqn:E0; [apply Nat.ltb_lt in E0; rewrite (Hn (k - 1)) by lia|];
         (destruct (S k <? R) eqn:E1; [apply Nat.ltb_lt in E1; rewrite (Hn (S k)) by lia|]); reflexivity.
       * unfold wsof. rewrite map_map. reflexivity.
     + intros k _ Hf. unfold free in Hf. apply orb_false_iff in Hf. destruct Hf as [Hc0 Hev].
-      unfold gw. replace (0 <? c) with true by (symmetry; apply Nat.ltb_lt; apply Nat.eqb_neq in Hc0; lia).
+      unfold gbw. replace (0 <? c) with true by (symmetry; apply Nat.ltb_lt; apply Nat.eqb_neq in Hc0; lia).
       unfold Nat.odd. rewrite Hev. reflexivity.
   - intros t Ht. unfold F.
     assert (Emid : map b2n t = map (fun k => b2n (nth k t false)) (seq 0 R)) by (rewrite <- Ht; symmetry; apply map_nth_seq).
     rewrite Emid at 1. unfold wsof.
-    rewrite (col_closed c (gw g c) (fun k => nth k t false)); [| apply gw_dummy | rewrite dE_inner by exact Hc; discriminate | lia].
-    assert (Eind : forallb (okk c (gw g c) (fun k => nth k t false)) (prows c 0 R)
-                   = forallb (fun p => free c (fst p) || eqb (gw g c (fst p)) (snd p)) (combine (seq 0 R) t)).
+    rewrite (col_closed c (gbw g c) (fun k => nth k t false)); [| apply gw_dummy | rewrite dE_inner by exact Hc; discriminate | lia].
+    assert (Eind : forallb (okk c (gbw g c) (fun k => nth k t false)) (prows c 0 R)
+                   = forallb (fun p => free c (fst p) || eqb (gbw g c (fst p)) (snd p)) (combine (seq 0 R) t)).
     { unfold prows. rewrite forallb_filter. rewrite <- Ht.
-      rewrite <- (forallb_combine_seq (fun k e => free c k || eqb (gw g c k) e) t 0). apply forallb_ext_in. intros k _.
+      rewrite <- (forallb_combine_seq (fun k e => free c k || eqb (gbw g c k) e) t 0). apply forallb_ext_in. intros k _.
       rewrite Nat.sub_0_r. unfold okk, free. rewrite dE_inner by exact Hc. cbn [Nat.eqb orb]. unfold dW.
       unfold Nat.odd. destruct (c =? 0), (Nat.even (k + c)); cbn [negb orb Nat.eqb]; reflexivity. }
     rewrite Eind. ring.
 Qed.
 
 (* the qubit-node product of column c only reads bits of stabilizer nodes in columns c - 1, c, c + 1 *)
-Lemma gw_ext g g' c k : (forall q, (snd q <= Z.of_nat c)%Z -> g q = g' q) -> gw g c k = gw g' c k.
-Proof. intros H. unfold gw. destruct (0 <? c) eqn:E; [|reflexivity]. apply Nat.ltb_lt in E. cbn [andb]. apply H.
-  unfold P. cbn [snd]. destruct (Nat.odd (k + c)); lia. Qed.
-Lemma ge_ext g g' c k : (forall q, (snd q <= Z.of_nat (S c))%Z -> g q = g' q) -> ge g c k = ge g' c k.
-Proof. intros H. unfold ge. destruct (S c <? C); [|reflexivity]. cbn [andb]. apply gw_ext. exact H. Qed.
+Lemma gw_ext g g' c k : (forall q, (snd q <= Z.of_nat c)%Z -> g q = g' q) -> gbw g c k = gbw g' c k.
+Proof. intros H. unfold gbw. destruct (0 <? c) eqn:E; [|reflexivity]. apply Nat.ltb_lt in E. cbn [andb]. apply H.
+  unfold npos. cbn [snd]. destruct (Nat.odd (k + c)); lia. Qed.
+Lemma ge_ext g g' c k : (forall q, (snd q <= Z.of_nat (S c))%Z -> g q = g' q) -> gbe g c k = gbe g' c k.
+Proof. intros H. unfold gbe. destruct (S c <? C); [|reflexivity]. cbn [andb]. apply gw_ext. exact H. Qed.
 Lemma colfactor_ext c wf ef wf' ef' k : (forall j, wf j = wf' j) -> (forall j, ef j = ef' j) ->
   colfactor c wf ef k = colfactor c wf' ef' k.
 Proof. intros Hw He. unfold colfactor, north, south, pb. rewrite !Hw, !He. destruct (dE c =? 2); rewrite ?Hw, ?He; reflexivity. Qed.
@@ -388,10 +388,10 @@ Lemma net_suffix : forall n c g, c + S n = C ->
 Proof.
   induction n as [|n IH]; intros c g Hc.
   - cbn [seq map flat_map CosetSum.sumA netop]. rewrite prodl_cons, prodl_nil.
-    assert (Ees : repeat 0 R = map (fun k => b2n (ge g c k)) (seq 0 R)).
+    assert (Ees : repeat 0 R = map (fun k => b2n (gbe g c k)) (seq 0 R)).
     { rewrite (map_ext_seq _ (fun _ => 0)); [symmetry; apply map_const_seq|]. intros k _. rewrite ge_dummy; [reflexivity|apply dE_last; lia]. }
     rewrite Ees. unfold wsof. rewrite col_closed; [|apply gw_dummy|apply ge_dummy|lia].
-    assert (Hall : forallb (okk c (gw g c) (ge g c)) (prows c 0 R) = true).
+    assert (Hall : forallb (okk c (gbw g c) (gbe g c)) (prows c 0 R) = true).
     { apply forallb_forall. intros k _. unfold okk. rewrite dE_last by lia. reflexivity. }
     rewrite Hall. unfold colval. cbn [ind]. ring.
   - replace (seq c (S (S n))) with (c :: seq (S c) (S n)) by reflexivity.
@@ -405,7 +405,7 @@ Proof.
     rewrite <- (sumA_mul_l K zz_eqb). apply (sumA_ext_in K zz_eqb zz_eqb_eq). intros g' Hg'.
     rewrite prodl_cons. f_equal. unfold colval. apply prodl_ext_in. intros k _. apply colfactor_ext; intros j.
     + destruct (Nat.eq_dec c 0) as [->|Hc0]; [reflexivity|].
-      transitivity (gw g1 c j).
+      transitivity (gbw g1 c j).
       * apply gw_ext. intros q Hq. symmetry. apply Hg1. intros Hin. apply in_frees_col in Hin; lia.
       * apply gw_ext. intros q Hq. symmetry. apply Hg'. intros Hin. apply in_later_frees in Hin. lia.
     + rewrite ge_inner by lia. symmetry. apply gw_ext. intros q Hq. apply Hg'. intros Hin. apply in_later_frees in Hin. lia.
@@ -420,31 +420,31 @@ Definition QL : list (nat * nat) := flat_map (fun c => map (fun k => (k, c)) (qr
 (* entry of the qubit node at (k, c) at the bits of the adjacent stabilizer nodes (0 across the border) *)
 Definition siteval (g : idx -> bool) (kc : nat * nat) : K :=
   let (k, c) := kc in
-  sval k c ((0 <? k) && g (P (k - 1) c)) ((S c <? C) && g (P k (S c))) ((S k <? R) && g (P (S k) c)) ((0 <? c) && g (P k (c - 1))).
+  sval k c ((0 <? k) && g (npos (k - 1) c)) ((S c <? C) && g (npos k (S c))) ((S k <? R) && g (npos (S k) c)) ((0 <? c) && g (npos k (c - 1))).
 
-Lemma pb_plaq g c j : c < C -> Nat.odd (j + c) = true -> pb c (gw g c) (ge g c) j = g (P j c).
+Lemma pb_plaq g c j : c < C -> Nat.odd (j + c) = true -> pb c (gbw g c) (gbe g c) j = g (npos j c).
 Proof.
   intros Hc Ho. unfold pb. destruct (Nat.eq_dec (S c) C) as [E|E].
-  - rewrite dE_last by exact E. cbn [Nat.eqb]. unfold gw. replace (0 <? c) with true by (symmetry; apply Nat.ltb_lt; lia).
+  - rewrite dE_last by exact E. cbn [Nat.eqb]. unfold gbw. replace (0 <? c) with true by (symmetry; apply Nat.ltb_lt; lia).
     rewrite Ho. reflexivity.
   - rewrite dE_inner by lia. cbn [Nat.eqb]. rewrite ge_inner by lia. rewrite gw_succ. unfold pe. rewrite Ho. reflexivity.
 Qed.
-Lemma colfactor_siteval g c k : c < C -> Nat.even (k + c) = true -> colfactor c (gw g c) (ge g c) k = siteval g (k, c).
+Lemma colfactor_siteval g c k : c < C -> Nat.even (k + c) = true -> colfactor c (gbw g c) (gbe g c) k = siteval g (k, c).
 Proof.
   intros Hc He. assert (Ho : Nat.odd (k + c) = false) by (unfold Nat.odd; rewrite He; reflexivity).
   unfold colfactor, siteval. f_equal.
   - unfold north. destruct (0 <? k) eqn:E; [|reflexivity]. apply Nat.ltb_lt in E. cbn [andb]. apply pb_plaq; [exact Hc|].
     replace (k + c) with (S (k - 1 + c)) in Ho by lia. rewrite Nat.odd_succ in Ho.
     unfold Nat.odd. rewrite Ho. reflexivity.
-  - unfold ge. destruct (S c <? C); [|reflexivity]. cbn [andb]. rewrite gw_succ. unfold pe. rewrite Ho. reflexivity.
+  - unfold gbe. destruct (S c <? C); [|reflexivity]. cbn [andb]. rewrite gw_succ. unfold pe. rewrite Ho. reflexivity.
   - unfold south. destruct (S k <? R); [|reflexivity]. cbn [andb]. apply pb_plaq; [exact Hc|].
     change (S k + c) with (S (k + c)). rewrite Nat.odd_succ. exact He.
-  - unfold gw. rewrite Ho. reflexivity.
+  - unfold gbw. rewrite Ho. reflexivity.
 Qed.
 
 (* MAIN THEOREM of this file: the delta tensors collapse the bond sums.  The left-hand side is the specification
    value of Tensor/Net.v (= Flat.flatval, the flat sum over all bond assignments, by Flat.value_flat; = the result of
-   the exact column sweep, by Exact.sweep_exact); the right-hand side has one bit per stabilizer node. *)
+   the exact column sweep, by Noop.sweep_exact); the right-hand side has one bit per stabilizer node. *)
 Theorem planar_tn_value g0 :
   value R planar_tn = sumA PL (fun g => prodl QL (siteval g)) g0.
 Proof.
@@ -554,7 +554,7 @@ Proof. intros H. unfold Nat.odd. rewrite H. reflexivity. Qed.
 Lemma odd_even_false n : Nat.odd n = true -> Nat.even n = false.
 Proof. unfold Nat.odd. destruct (Nat.even n); [discriminate|reflexivity]. Qed.
 
-Lemma in_PL q : In q PL <-> exists k c, k < R /\ c < C /\ Nat.odd (k + c) = true /\ q = P k c.
+Lemma in_PL q : In q PL <-> exists k c, k < R /\ c < C /\ Nat.odd (k + c) = true /\ q = npos k c.
 Proof.
   unfold PL. rewrite in_flat_map. split.
   - intros (c & Hc & Hin). apply in_seq in Hc. apply in_frees in Hin. destruct Hin as (k & Hk & Hf & ->). unfold pe.
@@ -579,7 +579,7 @@ Proof.
   - intros x y b _ _ H1 H2.
     assert (Hcol : forall c, In b (frees c) -> (c = 0 /\ (snd b <= 1)%Z) \/ (0 < c /\ snd b = Z.of_nat (S c))).
     { intros c H. destruct (Nat.eq_dec c 0) as [->|Hc0].
-      - left. split; [reflexivity|]. apply in_frees in H. destruct H as (k & _ & _ & ->). unfold pe, P. cbn [snd]. destruct (Nat.odd (k + 0)); lia.
+      - left. split; [reflexivity|]. apply in_frees in H. destruct H as (k & _ & _ & ->). unfold pe, npos. cbn [snd]. destruct (Nat.odd (k + 0)); lia.
       - right. split; [lia|]. apply in_frees_col; [lia|exact H]. }
     destruct (Hcol x H1) as [[-> Hx]|[Hx Ex]], (Hcol y H2) as [[-> Hy]|[Hy Ey]]; lia.
 Qed.
